@@ -649,7 +649,7 @@ def algebra_zero(d, budget_s=20, cheap=False) -> bool:
     ]
     if cheap:
         steps = steps[:4]
-    for f in steps:
+    for k, f in enumerate(steps):
         if time.time() - t0 > budget_s:
             return False
         try:
@@ -658,7 +658,72 @@ def algebra_zero(d, budget_s=20, cheap=False) -> bool:
             continue
         if r == 0:
             return True
+        if k == 3 and not cheap:
+            try:
+                if ring_zero(d):
+                    return True
+            except Exception:
+                pass
     return False
+
+
+def ring_zero(d, extra_relations=()):
+    """ring back end (DESIGN 2.4): is d == 0 in the polynomial ring generated by the sin/cos pairs
+    (s^2 + c^2 = 1), the square roots (w^2 = radicand) and all other non-polynomial atoms taken
+    as indeterminates?  Ideal membership by Groebner reduction of the numerator.  True => zero
+    wherever the denominators do not vanish; False => not decided."""
+    e = sp.expand_trig(d)
+    e = sp.together(e)
+    num, den = sp.fraction(e)
+    num = sp.expand(num)
+    reps, rels, gens = {}, [], []
+    trig_args = []
+    for a in num.atoms(sp.sin, sp.cos):
+        if a.args[0] not in trig_args:
+            trig_args.append(a.args[0])
+    for i, x in enumerate(trig_args):
+        s_, c_ = sp.Symbol("s!%d" % i, real=True), sp.Symbol("c!%d" % i, real=True)
+        reps[sp.sin(x)] = s_
+        reps[sp.cos(x)] = c_
+        rels.append(s_**2 + c_**2 - 1)
+        gens += [s_, c_]
+    num = num.xreplace(reps)
+    roots = [a for a in num.atoms(sp.Pow) if isinstance(a.exp, sp.Rational) and a.exp.q == 2]
+    bases = []
+    for a in roots:
+        if a.base not in bases:
+            bases.append(a.base)
+    wrep = {}
+    for i, b in enumerate(bases):
+        w = sp.Symbol("w!%d" % i, real=True)
+        bb = b.xreplace(reps)
+        pn, pd = sp.fraction(sp.together(bb))
+        rels.append(sp.expand(w**2 * pd - pn))
+        gens.insert(0, w)
+        for a in roots:
+            if a.base == b:
+                wrep[a] = w ** int(a.exp.p) if a.exp.p > 0 else 1 / w ** int(-a.exp.p)
+    num = sp.expand(sp.fraction(sp.together(num.xreplace(wrep)))[0])
+    for r_ in extra_relations:
+        rels.append(sp.expand(sp.fraction(sp.together(sp.expand_trig(r_).xreplace(reps).xreplace(wrep)))[0]))
+    # remaining non-polynomial atoms become indeterminates
+    others = {}
+    for a in list(num.atoms(sp.Function)) + [x for r_ in rels for x in r_.atoms(sp.Function)]:
+        if a not in others:
+            others[a] = sp.Symbol("o!%d" % len(others), real=True)
+    num = num.xreplace(others)
+    rels = [r_.xreplace(others) for r_ in rels]
+    if num == 0:
+        return True
+    if not rels:
+        return False
+    free = sorted((num.free_symbols | set().union(*[r_.free_symbols for r_ in rels])) - set(gens), key=lambda s: s.name)
+    try:
+        G = sp.groebner(rels, *(gens + free), order="grevlex")
+        _, rem = G.reduce(num)
+        return rem == 0
+    except Exception:
+        return False
 
 
 def subst_defs(hyps, e):
